@@ -134,6 +134,9 @@ func TestVerifC03(t *testing.T) {
 		deadline = time.Unix(sec, 0)
 	}
 	res := &VResult{Counters: map[string]int{}, Exhaustive: true}
+	if err := VerifCheckInventory(); err != nil {
+		t.Fatal(err)
+	}
 	sigs := map[string]*VViolation{}
 	report := func(sc string, hist []VEntry, sig, desc string) {
 		sig = "C03:" + sig
